@@ -252,6 +252,19 @@ def run(ctx, rep):
     rep.ob("R16.2", "ThreadPoolServer._drop_connection: untracks the descriptor and closes that connection", okdd,
            "del self.fd_to_conn[fd]; conn.close()" if okdd else "_drop_connection no longer (untracks fd, closes conn)", fdc.loc)
 
+    # the hand-off queue between the polling thread and the workers is unbounded: the workers are its only consumers and they
+    # also put() into it (re-queueing a descriptor), so a bounded queue blocks every worker in put() once enough clients are busy
+    qv = K.init_field_ctor(ctx, SRV + ".ThreadPoolServer", "_active_connection_queue")
+    okq = isinstance(qv, ast.Call) and (A.call_name(qv) or "").split(".")[-1] in ("Queue", "SimpleQueue", "LifoQueue") and \
+        not qv.args and not [k for k in qv.keywords if k.arg == "maxsize"]
+    puts = [c for m in ctx.cls(SRV + ".ThreadPoolServer").methods.values() for c in A.find_calls(m.node, "self._active_connection_queue.put")]
+    rep.floor("R16.2", "put() sites on the active-connection queue", len(puts), 3)
+    rep.ob("R16.2", "ThreadPoolServer: the active-connection queue is unbounded (workers re-queue into it and must never block)",
+           okq, "Queue() without maxsize" if okq else
+           "the queue the workers both consume and put() into is created as `%s`: once more connections are busy than it holds, "
+           "every worker (and the polling thread) blocks in put() and the pool is wedged for all clients" % (
+               A.src(qv) if qv is not None else None), ctx.loc(qv) if qv is not None else fr.loc, kind="site")
+
     # ------------------------------------------------------------------ R16.3
     fc = ctx.func("rpyc.core.service.Service._connect")
     gc = ctx.cfg(fc, raises="default")
